@@ -18,6 +18,9 @@ from c13_impl import build, apply_mod  # noqa
 
 def exact(arr):
     arr = np.asarray(arr, dtype=float)
+    orig = list(arr.shape)
+    if arr.ndim == 3:                     # calc_average=False: (n_element, n_node, width)
+        arr = arr.reshape(arr.shape[0], -1)
     if arr.ndim == 1:
         arr = arr.reshape(-1, 1)
     if arr.ndim != 2:
@@ -25,7 +28,7 @@ def exact(arr):
     if not np.all(np.isfinite(arr)):
         return {'nonfinite': True, 'shape': list(arr.shape)}
     return {'rows': [[list(float(x).as_integer_ratio()) for x in row] for row in arr.tolist()],
-            'shape': list(arr.shape)}
+            'shape': list(arr.shape), 'orig_shape': orig}
 
 
 def run_query(fd, q):
@@ -33,9 +36,17 @@ def run_query(fd, q):
     DT = {'float': float, 'int': np.int64, 'int32': np.int32, 'bool': bool}
     if q['kind'] == 'n2e':
         data = np.array(q['data'], dtype=DT[q.get('dtype', 'float')])
+        # (one name per width and dtype: on a shared object an existing field cannot be
+        # overwritten by one of another width — not this property's subject)
+        name = 'verif_%s_%d' % (q.get('dtype', 'float'), data.shape[1] if data.ndim == 2 else 1)
+        if not q.get('avg', True):
+            if q.get('by_name'):
+                fd.nodal_data.update_data(fd.nodes.ids, {name: data}, allow_overwrite=True)
+                data = name
+            return fd.convert_nodal2elemental(data, calc_average=False, ravel=q['ravel']), eids
         if q.get('by_name'):
-            fd.nodal_data.update_data(fd.nodes.ids, {'verif_field': data}, allow_overwrite=True)
-            return fd.convert_nodal2elemental('verif_field', calc_average=True), eids
+            fd.nodal_data.update_data(fd.nodes.ids, {name: data}, allow_overwrite=True)
+            return fd.convert_nodal2elemental(name, calc_average=True), eids
         return fd.convert_nodal2elemental(data, calc_average=True), eids
     v = np.array([q['values'][str(e)] for e in eids], dtype=DT[q.get('vdtype', 'float')])
     if q.get('drop_last'):
